@@ -347,3 +347,49 @@ func typeKey(t types.Type) string {
 	typeKeyMemo[t] = s
 	return s
 }
+
+// refLeaves reports, per leaf of layout(t), whether the leaf holds an object reference (an address of the modelled
+// heap) as opposed to a number: thin pointers, the .ref of fat pointers, maps, channels, function values, slice
+// bases, array snapshots. Interface payloads are not included (they may be numbers).
+func refLeaves(t types.Type) []bool {
+	var out []bool
+	refLeavesInto(t, &out)
+	return out
+}
+
+func refLeavesInto(t types.Type, out *[]bool) {
+	switch u := t.Underlying().(type) {
+	case *types.Basic:
+		switch u.Kind() {
+		case types.UnsafePointer, types.UntypedNil:
+			*out = append(*out, true)
+		case types.Invalid:
+		default:
+			*out = append(*out, false)
+		}
+	case *types.Pointer:
+		if ptrIsThin(u.Elem()) {
+			*out = append(*out, true)
+		} else {
+			*out = append(*out, false, true, false)
+		}
+	case *types.Map, *types.Chan, *types.Signature:
+		*out = append(*out, true)
+	case *types.Slice:
+		*out = append(*out, true, false, false, false)
+	case *types.Interface:
+		*out = append(*out, false, false)
+	case *types.Struct:
+		for i := 0; i < u.NumFields(); i++ {
+			refLeavesInto(u.Field(i).Type(), out)
+		}
+	case *types.Tuple:
+		for i := 0; i < u.Len(); i++ {
+			refLeavesInto(u.At(i).Type(), out)
+		}
+	case *types.Array:
+		*out = append(*out, true)
+	default:
+		*out = append(*out, false)
+	}
+}
